@@ -7,6 +7,8 @@ import HealSparse.Model.Packed
 namespace HS
 namespace Packed
 
+deriving instance DecidableEq for Except
+
 theorem unpack_length (b : Byte) : (unpack b).length = 8 := by simp [unpack]
 
 theorem unpack_getElem? (b : Byte) (t : Nat) :
@@ -1361,6 +1363,471 @@ theorem sum_spec (h : Heap) (p : PBA) (hwf : WF h p) : sum h p = .ok ((toBools h
   rw [hs] at hfr
   have := sum_raw h p.off p.len p.start (p.start + p.n) a1 (by omega) (by omega) (by omega) f hfr
   simp only [sum, hf, bind, Except.bind, pure, Except.pure, this, toBools_count h p hwf', PBA.A, Nat.add_assoc]
+
+
+/-- the padding bits after the last element, inside the view's own bytes, are zero -/
+def PadZero (h : Heap) (p : PBA) : Prop := ∀ k, p.A + p.n ≤ k → k < 8 * (p.off + p.len) → hbit h k = false
+
+theorem resize_spec (h : Heap) (p : PBA) (hwf : WF h p) (hown : p.own = true) (newsize : Nat)
+    (hge : p.n ≤ newsize) (hpad : PadZero h p) :
+    ∃ h' p', resize h p newsize = ((h', p'), none) ∧ WF h' p' ∧ p'.n = newsize ∧ p'.own = true ∧
+      toBools h' p' = toBools h p ++ List.replicate (newsize - p.n) false ∧
+      (∀ k, k < 8 * h.size → hbit h' k = hbit h k) ∧ h.size ≤ h'.size := by
+  have hs := hwf.stop_eq
+  have hwf' := hwf
+  obtain ⟨a1, a2, a3, a4, a5⟩ := hwf
+  have hsize : p.size = (p.n : Int) := by simp only [PBA.size, PBA.n]; omega
+  by_cases heq : newsize = p.n
+  · subst heq
+    refine ⟨h, p, ?_, hwf', rfl, hown, by simp, fun _ _ => rfl, Nat.le_refl _⟩
+    unfold resize
+    rw [if_neg (by rw [hsize]; omega), if_pos (by rw [hsize]; simp)]
+  · have hlt : p.n < newsize := by omega
+    have hnd : (if ((newsize : Int) + p.start) % 8 != 0 then ((newsize : Int) + p.start) / 8 + 1
+        else ((newsize : Int) + p.start) / 8).toNat = (newsize + p.start + 7) / 8 := by
+      split <;> rename_i hc <;> simp at hc <;> omega
+    by_cases hsame : (newsize + p.start + 7) / 8 = p.len
+    · -- same number of bytes: only `_stop_index` moves
+      have hwn : WF h { p with stop := (newsize : Int) + p.start } := ⟨a1, by simp; omega, by simp; omega, by simp; omega, a5⟩
+      refine ⟨h, { p with stop := (newsize : Int) + p.start }, ?_, hwn, by simp [PBA.n], hown, ?_, fun _ _ => rfl, Nat.le_refl _⟩
+      · unfold resize
+        rw [if_neg (by rw [hsize]; omega), if_neg (by rw [hsize]; simp; omega)]
+        simp only [hnd, hsame, beq_self_eq_true, if_true]
+      · apply List.ext_getElem?
+        intro i
+        rw [toBools_getElem? _ _ hwn, List.getElem?_append, toBools_length _ _ hwf', toBools_getElem? _ _ hwf']
+        have hn' : ({ p with stop := (newsize : Int) + p.start } : PBA).n = newsize := by simp [PBA.n]
+        have hA' : ({ p with stop := (newsize : Int) + p.start } : PBA).A = p.A := rfl
+        rw [hn', hA']
+        by_cases c1 : i < p.n
+        · simp [c1, show i < newsize by omega]
+        · by_cases c2 : i < newsize
+          · simp only [c1, c2, if_true, if_false, List.getElem?_replicate]
+            rw [if_pos (by omega), hpad _ (by omega) (by simp only [PBA.A]; omega)]
+          · simp [c1, c2, List.getElem?_replicate]; omega
+    · -- reallocation: the buffer moves to the end of the heap
+      have hgt : p.len < (newsize + p.start + 7) / 8 := by omega
+      let nd := (newsize + p.start + 7) / 8
+      let bytes := ((p.data h).take nd) ++ List.replicate (nd - p.len) (0 : Byte)
+      have hdl := data_length h p a5
+      have hbl : bytes.length = nd := by simp [bytes, hdl]; omega
+      let p' : PBA := ⟨h.size, nd, p.start, (newsize : Int) + p.start, p.own⟩
+      have hwn : WF (h ++ bytes.toArray) p' :=
+        ⟨a1, by simp [p']; omega, by simp [p', nd]; omega, by simp [p', nd]; omega, by simp [p', hbl]⟩
+      refine ⟨h ++ bytes.toArray, p', ?_, hwn, by simp [p', PBA.n], hown, ?_, fun k hk => hbit_append_old h bytes k hk, by simp⟩
+      · unfold resize
+        rw [if_neg (by rw [hsize]; omega), if_neg (by rw [hsize]; simp; omega)]
+        simp only [hnd]
+        rw [if_neg (by simp; omega), if_neg (by simp [hown])]
+      · apply List.ext_getElem?
+        intro i
+        rw [toBools_getElem? _ _ hwn, List.getElem?_append, toBools_length _ _ hwf', toBools_getElem? _ _ hwf']
+        have hn' : p'.n = newsize := by simp [p', PBA.n]
+        have hA' : p'.A = 8 * h.size + p.start := rfl
+        rw [hn', hA']
+        have hbyte : ∀ j t, t < 8 → (bytes.getD j 0).getLsbD t = if j < p.len then hbit h (8 * (p.off + j) + t) else false := by
+          intro j t ht
+          simp only [bytes, List.getD_eq_getElem?_getD, List.getElem?_append, List.length_take, hdl]
+          by_cases cj : j < p.len
+          · have : j < min nd p.len := by omega
+            simp only [this, if_true, cj, List.getElem?_take, show j < nd by omega, data_getElem? h p a5,
+              Option.getD_some, hbit_byte _ _ _ ht]
+          · have : ¬ j < min nd p.len := by omega
+            simp only [this, if_false, cj, List.getElem?_replicate]
+            split <;> simp
+        have e : 8 * h.size + p.start + i = 8 * (h.size + (p.start + i) / 8) + (p.start + i) % 8 := by omega
+        rw [e, hbit_append_new _ _ _ _ (Nat.mod_lt _ (by omega)), hbyte _ _ (Nat.mod_lt _ (by omega))]
+        by_cases c1 : i < p.n
+        · have : (p.start + i) / 8 < p.len := by omega
+          simp only [c1, show i < newsize by omega, if_true, this]
+          congr 2; simp only [PBA.A]; omega
+        · by_cases c2 : i < newsize
+          · have c3 : i - p.n < newsize - p.n := by omega
+            simp only [c1, c2, c3, if_true, if_false, List.getElem?_replicate]
+            by_cases c4 : (p.start + i) / 8 < p.len
+            · rw [if_pos c4, hpad _ (by simp only [PBA.A]; omega) (by omega)]
+            · rw [if_neg c4]
+          · have c3 : ¬ i - p.n < newsize - p.n := by omega
+            simp [c1, c2, c3]
+
+/-- how many of the three parts contain bit `k` (counted from bit 0 of `self._data[0]`) -/
+def FML.cover (f : FML) (len : Nat) (k : Nat) : Nat :=
+  (if f.first.arr.isSome ∧ k / 8 = 0 ∧ f.first.lo ≤ k % 8 ∧ k % 8 < f.first.hi then 1 else 0) +
+  (match f.mid with
+    | some (a, b) => if a ≤ k / 8 ∧ k / 8 < b then 1 else 0
+    | none => 0) +
+  (if f.last.arr.isSome ∧ k / 8 = len - 1 ∧ f.last.lo ≤ k % 8 ∧ k % 8 < f.last.hi then 1 else 0)
+
+theorem fml_cover_raw (rd : Nat → Byte) (len start e : Nat) (mask : Bool)
+    (h1 : start < 8) (h3 : 8 * len ≤ e + 7) (h4 : e ≤ 8 * len)
+    (f : FML) (hf : fml rd len start (e : Int) mask = .ok f) (k : Nat) :
+    f.cover len k = if start ≤ k ∧ k < e then 1 else 0 := by
+  have hsm : ((e : Int) % 8).toNat = e % 8 := by omega
+  unfold fml at hf
+  simp only [Bool.and_eq_true, beq_iff_eq] at hf
+  repeat' split at hf
+  all_goals (cases hf)
+  all_goals simp only [FML.cover, Part.absent, hsm, Int.toNat_natCast, Option.isSome_some, Option.isSome_none,
+    Bool.false_eq_true, false_and, true_and, if_false]
+  all_goals (repeat' split)
+  all_goals omega
+
+
+theorem getElem?_set' {α} (l : List α) (i j : Nat) (a : α) :
+    (l.set i a)[j]? = if i = j then (l[j]?).map (fun _ => a) else l[j]? := by
+  rw [List.getElem?_set]
+  by_cases c : i = j
+  · subst c
+    by_cases c2 : i < l.length
+    · simp [c2]
+    · simp [c2]
+  · simp [c]
+
+/-- numpy `a[idx] = v` (scalar `v`) -/
+def npSetIdxBool (l : List Bool) (idx : List Nat) (v : Bool) : List Bool := idx.foldl (fun l i => l.set i v) l
+
+/-- numpy `a[idx] = vals`: sequential assignment, the last occurrence of an index wins -/
+def npSetIdx (l : List Bool) (idx : List Nat) (vals : List Bool) : List Bool :=
+  (idx.zip vals).foldl (fun l iv => l.set iv.1 iv.2) l
+
+theorem npSetIdxBool_getElem? (idx : List Nat) (v : Bool) (l0 : List Bool) (j : Nat) :
+    (npSetIdxBool l0 idx v)[j]? = if j ∈ idx then (l0[j]?).map (fun _ => v) else l0[j]? := by
+  unfold npSetIdxBool
+  induction idx generalizing l0 with
+  | nil => simp
+  | cons i rest ih =>
+    simp only [List.foldl_cons, ih, getElem?_set', List.mem_cons]
+    by_cases c1 : j ∈ rest <;> by_cases c2 : i = j
+    · subst c2; cases l0[i]? <;> simp [c1]
+    · have : ¬ j = i := fun hh => c2 hh.symm
+      simp [c1, c2]
+    · subst c2; simp [c1]
+    · have : ¬ j = i := fun hh => c2 hh.symm
+      simp [c1, c2, this]
+
+/-- all occurrences of an index carry the same value -/
+def Consistent (ivs : List (Nat × Bool)) : Prop := ∀ a ∈ ivs, ∀ b ∈ ivs, a.1 = b.1 → a.2 = b.2
+
+theorem foldl_set_pairs_getElem? (ivs : List (Nat × Bool)) (hc : Consistent ivs) (l0 : List Bool) (j : Nat) :
+    (ivs.foldl (fun l iv => l.set iv.1 iv.2) l0)[j]? =
+      match ivs.find? (fun iv => iv.1 == j) with
+      | some iv => (l0[j]?).map (fun _ => iv.2)
+      | none => l0[j]? := by
+  induction ivs generalizing l0 with
+  | nil => simp
+  | cons iv rest ih =>
+    have hc' : Consistent rest := fun a ha b hb => hc a (by simp [ha]) b (by simp [hb])
+    simp only [List.foldl_cons, ih hc', getElem?_set', List.find?_cons]
+    by_cases c : iv.1 = j
+    · simp only [c, beq_self_eq_true, if_true]
+      cases hf : rest.find? (fun iv => iv.1 == j) with
+      | none => simp
+      | some iv' =>
+        have hm := List.mem_of_find?_eq_some hf
+        have hj := List.find?_some hf
+        simp only [beq_iff_eq] at hj
+        have := hc iv (by simp) iv' (by simp [hm]) (by rw [c, hj])
+        cases l0[j]? <;> simp [this]
+    · have : (iv.1 == j) = false := by simp [c]
+      simp only [this, c, if_false]
+
+theorem hits_ofNat (p : PBA) (idx : List Nat) (j : Nat) :
+    hits p (idx.map Int.ofNat) (p.A + j) = decide (j ∈ idx) := by
+  unfold hits
+  induction idx with
+  | nil => simp
+  | cons i rest ih =>
+    simp only [List.map_cons, List.any_cons, ih, List.mem_cons]
+    by_cases c : j = i
+    · subst c; simp
+    · have : ¬ i = j := fun hh => c hh.symm
+      simp [c, this]
+
+theorem inRange_ofNat (n : Nat) (idx : List Nat) (h : ∀ i ∈ idx, i < n) : InRange n (idx.map Int.ofNat) := by
+  intro l hl
+  obtain ⟨i, hi, rfl⟩ := List.mem_map.mp hl
+  have := h i hi
+  simp; omega
+
+
+theorem Rewrites.wf {h h' : Heap} {p : PBA} {F} (R : Rewrites h h' p F) {w : PBA} (hw : WF h w) : WF h' w := by
+  obtain ⟨a1, a2, a3, a4, a5⟩ := hw
+  exact ⟨a1, a2, a3, a4, by rw [R.size]; exact a5⟩
+
+/-- A write through the view `v` (elements `[L, E)` of `p`) seen through `p`. -/
+theorem toBools_rewrites_parent {h h' : Heap} {p v : PBA} {F} (hp : WF h p) (hv : WF h v)
+    (R : Rewrites h h' v F) (L E : Nat) (hA : v.A = p.A + L) (hn : v.n = E - L) (hLE : L ≤ E) (hE : E ≤ p.n) :
+    toBools h' p = (toBools h p).take L ++ toBools h' v ++ (toBools h p).drop E := by
+  have hp' := R.wf hp
+  have hv' := R.wf hv
+  apply List.ext_getElem?
+  intro i
+  rw [List.append_assoc, List.getElem?_append, List.getElem?_append, List.length_take, toBools_length _ _ hp,
+    toBools_length _ _ hv', List.getElem?_take, List.getElem?_drop,
+    toBools_getElem? _ _ hp', toBools_getElem? _ _ hv', toBools_getElem? _ _ hp, toBools_getElem? _ _ hp, R.bit]
+  have hm : min L p.n = L := by omega
+  rw [hm]
+  by_cases c1 : i < L
+  · simp only [c1, if_true, show i < p.n by omega]
+    rw [if_neg (by omega)]
+  · by_cases c2 : i < E
+    · simp only [c1, if_false, show i - L < v.n by omega, show i < p.n by omega, if_true]
+      have e : v.A + (i - L) = p.A + i := by omega
+      rw [if_pos (by omega), R.bit, if_pos (by omega), e]
+    · simp only [c1, if_false, show ¬ i - L < v.n by omega]
+      have e : E + (i - L - v.n) = i := by omega
+      rw [e]
+      by_cases c3 : i < p.n
+      · simp only [c3, if_true]; rw [if_neg (by omega)]
+      · simp only [c3, if_false]
+
+/-- A view whose bits are all outside the rewritten range does not change. -/
+theorem toBools_rewrites_frame {h h' : Heap} {v w : PBA} {F} (hw : WF h w) (R : Rewrites h h' v F)
+    (hd : w.A + w.n ≤ v.A ∨ v.A + v.n ≤ w.A) : toBools h' w = toBools h w := by
+  rw [toBools_eq _ _ (R.wf hw), toBools_eq _ _ hw]
+  apply List.map_congr_left
+  intro i hi
+  have := List.mem_range.mp hi
+  rw [R.bit, if_neg (by omega)]
+
+/-- "set the True ones, then clear the False ones": exact result of index assignment. -/
+theorem setIdxArr_spec (h : Heap) (p : PBA) (hwf : WF h p) (idx : List Nat) (vals : List Bool)
+    (hlen : vals.length = idx.length) (hr : ∀ i ∈ idx, i < p.n) :
+    ∃ h', setIdxArr h p (idx.map Int.ofNat) vals = (h', none) ∧
+      Rewrites h h' p (fun k x =>
+        (x || hits p ((((idx.map Int.ofNat).zip vals).filter (·.2)).map (·.1)) k) &&
+          !hits p ((((idx.map Int.ofNat).zip vals).filter (!·.2)).map (·.1)) k) := by
+  by_cases hne : idx = []
+  · subst hne
+    exact ⟨h, rfl, rfl, fun k => by simp [hits]⟩
+  · have hr' := inRange_ofNat p.n idx hr
+    have hsub : ∀ (q : Int × Bool → Bool), InRange p.n ((((idx.map Int.ofNat).zip vals).filter q).map (·.1)) := by
+      intro q l hl
+      obtain ⟨iv, hiv, rfl⟩ := List.mem_map.mp hl
+      exact hr' iv.1 (List.of_mem_zip (List.mem_filter.mp hiv).1).1
+    obtain ⟨h1, e1, R1⟩ := setBits_spec h p hwf _ (hsub (·.2))
+    obtain ⟨h2, e2, R2⟩ := clearBits_spec h1 p (R1.wf hwf) _ (hsub (!·.2))
+    refine ⟨h2, ?_, R2.size.trans R1.size, fun k => ?_⟩
+    · simp only [setIdxArr, Bool.false_and, Bool.false_eq_true, if_false, List.isEmpty_iff, List.map_eq_nil_iff, hne,
+        List.length_map, hlen, bne_self_eq_false, e1, e2]
+    · rw [R2.bit, R1.bit]
+      by_cases c : p.A ≤ k ∧ k < p.A + p.n
+      · simp only [c, and_self, if_true]
+      · simp only [c, if_false]
+
+theorem getInt_spec (h : Heap) (p : PBA) (hwf : WF h p) (i : Nat) (hi : i < p.n) :
+    getInt h p i = .ok ((toBools h p).getD i false) := by
+  have := testBits_spec h p hwf [(i : Int)] (by intro l hl; simp at hl; subst hl; omega)
+  simp only [getInt, this, bind, Except.bind, pure, Except.pure, List.map_cons, List.map_nil, List.headD_cons,
+    Int.toNat_natCast]
+  rw [List.getD_eq_getElem?_getD, toBools_getElem? _ _ hwf, if_pos hi]; rfl
+
+theorem getIdx_spec (h : Heap) (p : PBA) (hwf : WF h p) (idx : List Nat) (hr : ∀ i ∈ idx, i < p.n) :
+    getIdx h p (idx.map Int.ofNat) = .ok (idx.map fun i => (toBools h p).getD i false) := by
+  simp only [getIdx, Bool.false_and, Bool.false_eq_true, if_false,
+    testBits_spec h p hwf _ (inRange_ofNat p.n idx hr), List.map_map]
+  congr 1
+  apply List.map_congr_left
+  intro i hi
+  simp only [Function.comp, Int.toNat_natCast, Int.ofNat_eq_natCast]
+  rw [List.getD_eq_getElem?_getD, toBools_getElem? _ _ hwf, if_pos (hr i hi)]; rfl
+
+theorem dataArray_spec (h : Heap) (p : PBA) :
+    dataArray h p = if p.start = 0 then .ok (p.data h) else .error .notImpl := by
+  unfold dataArray
+  by_cases c : p.start = 0
+  · have h1 : (p.start != 0 || p.stop != p.size) = false := by simp [c, PBA.size]
+    rw [if_neg (by rw [h1]; simp), if_pos c]
+  · have h1 : (p.start != 0 || p.stop != p.size) = true := by simp [c]
+    rw [if_pos h1, if_neg c]
+
+
+/-- a boolean array as 0/1 numbers -/
+def bitsNat (l : List Bool) : List Nat := l.map fun b => if b then 1 else 0
+
+theorem count_true_eq_sum (l : List Bool) : l.count true = (bitsNat l).sum := by
+  induction l with
+  | nil => rfl
+  | cons b bs ih => cases b <;> simp [bitsNat, List.count_cons] at ih ⊢ <;> omega
+
+theorem prodL_foldl (l : List Nat) (a : Nat) : l.foldl (· * ·) a = a * prodL l := by
+  unfold prodL
+  induction l generalizing a with
+  | nil => simp
+  | cons x xs ih => simp only [List.foldl_cons]; rw [ih, ih (1 * x)]; simp [Nat.mul_assoc]
+
+theorem prodL_append_single (l : List Nat) (x : Nat) : prodL (l ++ [x]) = prodL l * x := by
+  simp only [prodL, List.foldl_append, List.foldl_cons, List.foldl_nil]
+
+theorem sum_range_add (g : Nat → Nat) (a b : Nat) :
+    ((List.range (a + b)).map g).sum = ((List.range a).map g).sum + ((List.range b).map fun i => g (a + i)).sum := by
+  simp [List.range_add, List.map_append, List.sum_append, List.map_map, Function.comp_def]
+
+theorem sum_group8 (g : Nat → Nat) (base c : Nat) :
+    ((List.range c).map fun a => ((List.range 8).map fun t => g (8 * (base + a) + t)).sum).sum =
+      ((List.range (8 * c)).map fun b => g (8 * base + b)).sum := by
+  induction c with
+  | zero => simp
+  | succ c ih =>
+    have e : 8 * (c + 1) = 8 * c + 8 := by omega
+    rw [e, sum_range_add (fun b => g (8 * base + b)) (8 * c) 8, ← ih,
+      show List.range (c + 1) = List.range c ++ [c] from List.range_succ, List.map_append, List.sum_append]
+    congr 1
+    simp only [List.map_cons, List.map_nil, List.sum_cons, List.sum_nil, Nat.add_zero]
+    congr 1
+    apply List.map_congr_left
+    intro t _
+    congr 1; omega
+
+theorem getD_map_range (g : Nat → Nat) (n j : Nat) :
+    ((List.range n).map g).getD j 0 = if j < n then g j else 0 := by
+  rw [List.getD_eq_getElem?_getD, List.getElem?_map]
+  by_cases c : j < n
+  · simp [c]
+  · have : (List.range n)[j]? = none := by simp; omega
+    simp [c, this]
+
+/-- `sumAxis` over the last axis: `shape = init ++ [A]`. -/
+theorem sumAxis_last (x : List Nat) (init : List Nat) (A : Nat) :
+    sumAxis x (init ++ [A]) init.length =
+      (List.range (prodL init)).map fun o => ((List.range A).map fun a => x.getD (o * A + a) 0).sum := by
+  unfold sumAxis
+  have h1 : (init ++ [A]).take init.length = init := by simp
+  have h2 : (init ++ [A]).getD init.length 1 = A := by simp [List.getD_eq_getElem?_getD]
+  have h3 : (init ++ [A]).drop (init.length + 1) = [] := by simp
+  simp only [h1, h2, h3, show prodL [] = 1 from rfl, Nat.mul_one, Nat.div_one, Nat.mod_one, Nat.add_zero]
+
+/-- the per-byte counts of an aligned array against its elements -/
+theorem sumAxis_last_packed (x temp : List Nat) (init : List Nat) (c : Nat)
+    (ht : ∀ j, temp.getD j 0 = ((List.range 8).map fun t => x.getD (8 * j + t) 0).sum) :
+    sumAxis temp (init ++ [c]) init.length = sumAxis x (init ++ [8 * c]) init.length := by
+  rw [sumAxis_last, sumAxis_last]
+  apply List.map_congr_left
+  intro o _
+  have := sum_group8 (fun i => x.getD i 0) (o * c) c
+  simp only [ht]
+  rw [this]
+  apply congrArg
+  apply List.map_congr_left
+  intro b _
+  congr 1
+  rw [Nat.mul_left_comm]
+
+theorem data_eq_map (h : Heap) (p : PBA) (hin : p.off + p.len ≤ h.size) :
+    p.data h = (List.range p.len).map fun i => rdB h (p.off + i) := by
+  apply List.ext_getElem?
+  intro i
+  rw [data_getElem? h p hin]
+  by_cases c : i < p.len
+  · simp [c]
+  · have : (List.range p.len)[i]? = none := by simp; omega
+    simp [c, this]
+
+/-- facts shared by the reshaped sums of an aligned array -/
+theorem aligned_counts (h : Heap) (p : PBA) (hwf : WF h p) (h0 : p.start = 0) (h8 : p.stop % 8 = 0) :
+    p.n = 8 * p.len ∧
+    (∀ j, ((p.data h).map fun b => (bitCount b).toNat).getD j 0 =
+      ((List.range 8).map fun t => (bitsNat (toBools h p)).getD (8 * j + t) 0).sum) ∧
+    ((p.data h).map fun b => (bitCount b).toNat).length = p.len := by
+  have hwf' := hwf
+  obtain ⟨a1, a2, a3, a4, a5⟩ := hwf
+  have hn : p.n = 8 * p.len := by simp only [PBA.n]; omega
+  refine ⟨hn, fun j => ?_, by simp [data_length h p a5]⟩
+  rw [data_eq_map h p a5, List.map_map, getD_map_range]
+  have hx : ∀ i, (bitsNat (toBools h p)).getD i 0 = if i < p.n then (if hbit h (p.A + i) then 1 else 0) else 0 := by
+    intro i
+    simp only [bitsNat, List.getD_eq_getElem?_getD, List.getElem?_map, toBools_getElem? h p hwf']
+    by_cases c : i < p.n <;> simp [c]
+  by_cases c : j < p.len
+  · simp only [c, if_true, Function.comp, bitCount_popcount, count_true_eq_sum, bitsNat, unpack, List.map_map]
+    congr 1
+    apply List.map_congr_left
+    intro t ht
+    have ht8 := List.mem_range.mp ht
+    simp only [Function.comp]
+    have e : p.A + (8 * j + t) = 8 * (p.off + j) + t := by simp only [PBA.A]; omega
+    have hx' := hx (8 * j + t)
+    simp only [bitsNat] at hx'
+    rw [hx', if_pos (show 8 * j + t < p.n by omega), e, hbit_byte _ _ _ ht8]
+  · simp only [c, if_false]
+    have : ((List.range 8).map fun t => (bitsNat (toBools h p)).getD (8 * j + t) 0) = (List.range 8).map fun _ => 0 := by
+      apply List.map_congr_left
+      intro t _
+      rw [hx, if_neg (by omega)]
+    rw [this]; rfl
+
+theorem sumShaped_none (h : Heap) (p : PBA) (hwf : WF h p) (h0 : p.start = 0) (h8 : p.stop % 8 = 0)
+    (init : List Nat) (c : Nat) (hprod : prodL (init ++ [8 * c]) = p.n) :
+    sumShaped h p (init ++ [8 * c]) none = .ok ([], [(toBools h p).count true]) := by
+  obtain ⟨hn, ht, hl⟩ := aligned_counts h p hwf h0 h8
+  have hs := hwf.stop_eq
+  have hsize : p.size = (p.n : Int) := by simp only [PBA.size]; omega
+  have hnew : (init ++ [8 * c]).set ((init ++ [8 * c]).length - 1) (8 * c / 8) = init ++ [c] := by
+    simp [List.set_append]
+  have hpl : prodL (init ++ [c]) = p.len := by
+    rw [prodL_append_single] at hprod ⊢
+    have : prodL init * (8 * c) = 8 * (prodL init * c) := by rw [Nat.mul_left_comm]
+    omega
+  have hsum : ((p.data h).map fun b => (bitCount b).toNat).sum = (toBools h p).count true := by
+    rw [data_eq_map h p hwf.in_heap, List.map_map]
+    have := cnt_bytes h p.off p.len
+    show ((List.range p.len).map fun i => (bitCount (rdB h (p.off + i))).toNat).sum = _
+    rw [this, toBools_count h p hwf, hn]
+    simp only [PBA.A, h0]; congr 1; omega
+  have h8c : 8 * c / 8 = c := by omega
+  have h8m : 8 * c % 8 = 0 := by omega
+  simp [sumShaped, h0, h8, bind, Except.bind, pure, Except.pure, hprod, hsize, List.getLast?_append,
+    hpl, hl, hsum, h8c, h8m, List.set_append]
+
+theorem sumShaped_last (h : Heap) (p : PBA) (hwf : WF h p) (h0 : p.start = 0) (h8 : p.stop % 8 = 0)
+    (init : List Nat) (c : Nat) (hprod : prodL (init ++ [8 * c]) = p.n) (a : Int)
+    (ha : a = -1 ∨ (a = (init.length : Int) ∧ init ≠ [])) :
+    sumShaped h p (init ++ [8 * c]) (some a) =
+      .ok (init, sumAxis (bitsNat (toBools h p)) (init ++ [8 * c]) init.length) := by
+  obtain ⟨hn, ht, hl⟩ := aligned_counts h p hwf h0 h8
+  have hs := hwf.stop_eq
+  have hsize : p.size = (p.n : Int) := by simp only [PBA.size]; omega
+  have hpl : prodL (init ++ [c]) = p.len := by
+    rw [prodL_append_single] at hprod ⊢
+    have : prodL init * (8 * c) = 8 * (prodL init * c) := by rw [Nat.mul_left_comm]
+    omega
+  have h8c : 8 * c / 8 = c := by omega
+  have h8m : 8 * c % 8 = 0 := by omega
+  have hax := sumAxis_last_packed (bitsNat (toBools h p)) ((p.data h).map fun b => (bitCount b).toNat) init c ht
+  have hlen : 0 < init.length ∨ init = [] := by cases init <;> simp
+  have hk : (if a < 0 then a + ((init.length : Int) + 1) else a) = (init.length : Int) := by
+    rcases ha with rfl | ⟨rfl, _⟩
+    · simp; omega
+    · rw [if_neg (by omega)]
+  have hge : ¬ (a ≥ (init.length : Int) + 1) := by rcases ha with rfl | ⟨rfl, _⟩ <;> omega
+  have hne0 : ¬ (a = 0) := by
+    rcases ha with rfl | ⟨rfl, hne⟩
+    · omega
+    · cases init with
+      | nil => exact absurd rfl hne
+      | cons x xs => simp; omega
+  simp [sumShaped, h0, h8, bind, Except.bind, pure, Except.pure, hprod, hsize, List.getLast?_append,
+    hpl, hl, h8c, h8m, List.set_append, hk, hge, hne0, hax]
+  have e1 : ¬ ((init.length : Int) < 0) := by omega
+  have e2 : (init ++ [c]).eraseIdx init.length = init := by
+    rw [List.eraseIdx_append_of_length_le (Nat.le_refl _)]; simp
+  simp [e1, e2]
+
+
+/-- element-wise combination with the aligned operand, as lists -/
+theorem zipWith_toBools (h : Heap) (p q : PBA) (hp : WF h p) (hq : WF h q) (hs : q.start = p.start)
+    (he : q.stop = p.stop) (g : Bool → Bool → Bool) :
+    ((List.range p.n).map fun i => g (hbit h (p.A + i)) (opnd h p q (p.A + i))) =
+      List.zipWith g (toBools h p) (toBools h q) := by
+  have hn : q.n = p.n := by simp only [PBA.n, hs, he]
+  apply List.ext_getElem?
+  intro i
+  rw [List.getElem?_zipWith, toBools_getElem? _ _ hp, toBools_getElem? _ _ hq, hn]
+  by_cases c : i < p.n
+  · simp only [List.getElem?_map, List.getElem?_range c, Option.map_some, c, if_true, opnd]
+    have : p.A + i + 8 * q.off - 8 * p.off = q.A + i := by simp only [PBA.A, hs]; omega
+    rw [this]
+  · simp [c]
 
 
 end Packed
